@@ -35,7 +35,10 @@ def parseAtom (j : Json) : Except String Atom := do
   | "t" => pure (.t (← reqStr j "s"))
   | "dt" => pure (.dt (← reqStr j "s"))
   | "tab" => pure .tab
-  | "br" => pure .br
+  | "br" =>
+    match j.getObjValAs? String "type" with
+    | .ok ty => pure (.brT ty.toList)
+    | _ => pure .br
   | "cr" => pure .cr
   | "nbh" => pure .nbh
   | "cref" => pure (.cref (← reqStr j "id"))
@@ -139,6 +142,7 @@ def atomJ : Atom → Json
   | .dt s => Json.mkObj [("k", "dt"), ("s", sJ s)]
   | .tab => Json.mkObj [("k", "tab")]
   | .br => Json.mkObj [("k", "br")]
+  | .brT ty => Json.mkObj [("k", "br"), ("type", sJ ty)]
   | .cr => Json.mkObj [("k", "cr")]
   | .nbh => Json.mkObj [("k", "nbh")]
   | .cref id => Json.mkObj [("k", "cref"), ("id", sJ id)]
